@@ -42,19 +42,20 @@ def run(tier: str, seed: int) -> int:
             continue
         for L in (1.0, 2 * np.pi, float(rng.uniform(0.3, 20))):
             omega = 2 * np.pi / L
-            S = sym_arrays(D, N, table, omega)
+            mj = 4 if N > 35 else 6          # the large 1D tables carry orders <= 4 (k^6 leaves TLC's 32-bit integers)
+            S = sym_arrays(D, N, table, omega, maxj=mj)
             dop = np.asarray(ex.spectral.build_derivative_operator(D, L, N))
             key = {"kind": "operator", "D": D, "N": N}
             run_.case(("ops", D, N, L))
             for d in range(1, D + 1):
                 if maxabs(dop[d - 1] - S[(d, 1)]) > 1e-12 * (1 + maxabs(S[(d, 1)])):
                     run_.violation(dict(key, what="build_derivative_operator"), {"axis": d - 1, "L": L})
-            for o in (0, 2, 4, 6):
+            for o in [x for x in (0, 2, 4, 6) if x <= mj]:
                 lap = np.asarray(ex.spectral.build_laplace_operator(jnp.asarray(dop), order=o))
                 want = np.ones(wshape(D, N)) if o == 0 else sum(S[(d, o)] for d in range(1, D + 1))
                 if lap.shape != (1,) + wshape(D, N) or maxabs(lap[0] - want) > 1e-11 * (1 + maxabs(want)):
                     run_.violation(dict(key, what="build_laplace_operator", order=o), {"L": L})
-            for o in (1, 3, 5):
+            for o in [x for x in (1, 3, 5) if x <= mj]:
                 vel = rng.uniform(-2, 2, D)
                 g = np.asarray(ex.spectral.build_gradient_inner_product_operator(jnp.asarray(dop), jnp.asarray(vel), order=o))
                 want = sum(vel[d - 1] * S[(d, o)] for d in range(1, D + 1))
@@ -64,7 +65,7 @@ def run(tier: str, seed: int) -> int:
             for C in (1, 2, 3):
                 u = zoo.nyquist_free(ex, jnp, rng.standard_normal((C,) + (N,) * D))
                 uh = np.asarray(ex.fft(jnp.asarray(u)))
-                for m in range(1, 7):
+                for m in range(1, mj + 1):
                     run_.case(("derivative", D, N, C, m, L))
                     got = np.asarray(ex.derivative(jnp.asarray(u), L, order=m))
                     want = np.stack([np.stack([np.asarray(ex.ifft(jnp.asarray(S[(d, m)] * uh[c])[None], num_spatial_dims=D, num_points=N))[0]
